@@ -103,6 +103,12 @@ void harness(void)
 # if defined REM0
 	ASSUME(rem == 0);
 # endif
+# if defined REMMAX
+	ASSUME(rem > -REMMAX && rem < REMMAX);
+# endif
+# if defined REMSTEP
+	ASSUME(rem % REMSTEP == 0);
+# endif
 	if (in.kind == K_ALLDAY) {
 		;
 	} else if (in.kind == K_ALLSEC) {
